@@ -70,6 +70,7 @@ static void            bufr_copy_EntryTableD  ( EntryTableD *r, const char *desc
                                                 int *descriptors, int count);
 static void            bufr_merge_TablesSet   ( BufrTablesSet *tbls1, BufrTablesSet *tbls2 );
 static int             strtlen                (char *Str);
+static void            bufr_reset_tableB_cache( BUFR_Tables *tbls );
 
 static char                  **bufr_csv_split_cells ( char *tmpstr, int *nbcell, int nb_alloc );
 static int                     bufr_csv_find_cell   ( char *value, char **cells, int nb );
@@ -244,6 +245,10 @@ void bufr_merge_tables( BUFR_Tables *tbls1, BUFR_Tables *tbls2 )
    if ( tbls1 == NULL ) return;
    if ( tbls2 == NULL ) return;
 /*
+ * remembered lookups point into the tables that are replaced or changed below
+ */
+   bufr_reset_tableB_cache( tbls1 );
+/*
  * master tables are never copied on merged, only referenced
 
 */
@@ -268,6 +273,25 @@ void bufr_merge_tables( BUFR_Tables *tbls1, BUFR_Tables *tbls2 )
 
 */
    bufr_merge_TablesSet( &(tbls1->local), &(tbls2->local) );
+   }
+
+/**
+ * @english
+ * forget the memoised Table B lookups (tableB_cache, last_searched):
+ * they point to entries of tables that are about to be changed or freed
+ * @param     tbls  : pointer to BUFR_Tables structure
+ * @endenglish
+ * @francais
+ * @todo translate to French
+ * @endfrancais
+ * @ingroup internal
+ */
+static void bufr_reset_tableB_cache( BUFR_Tables *tbls )
+   {
+   if (tbls == NULL) return;
+   if (tbls->tableB_cache)
+      arr_free( &(tbls->tableB_cache) );
+   tbls->last_searched = NULL;
    }
 
 /**
@@ -373,6 +397,7 @@ static int bufr_load_tableB( BUFR_Tables *tables, BufrTablesSet *tbls, const cha
    int   data_cat;
    int   version;
 
+   bufr_reset_tableB_cache( tables );
    tbls->tableBtype = TYPE_ALLOCATED;
 
    data_cat_desc[0] = '\0';
@@ -2515,6 +2540,7 @@ int bufr_load_csv_tableB( BUFR_Tables *tables, const char *filename )
    BufrTablesSet  *tbls;
 
    tbls = &(tables->master);
+   bufr_reset_tableB_cache( tables );
    tbls->tableBtype = TYPE_ALLOCATED;
 
    if (tbls->tableB == NULL)
